@@ -362,7 +362,7 @@ func batchStage(obs []*Obligation, opt dischargeOpts) []*Obligation {
 				b.WriteString(sc)
 				b.WriteString("(pop 1)\n")
 			}
-			_, raw := runOne(solvers[1], b.String(), 1500, context.Background())
+			_, raw, dur := runOneT(solvers[1], b.String(), 1500, context.Background())
 			var sts []string
 			for _, ln := range strings.Split(raw, "\n") {
 				ln = strings.TrimSpace(ln)
@@ -374,7 +374,8 @@ func batchStage(obs []*Obligation, opt dischargeOpts) []*Obligation {
 			if len(sts) != len(part) {
 				return // malformed: every query goes to stage 2
 			}
-			el := time.Since(start) / time.Duration(len(part))
+			el := dur / time.Duration(len(part))
+			_ = start
 			for k, o := range part {
 				if sts[k] == "unsat" {
 					o.Result = &SolverResult{Status: "unsat", Solver: "z3", All: map[string]string{"z3": "unsat"}, Elapsed: el}
